@@ -616,6 +616,24 @@ def monitor (which : Which) (s : SysCommon.Scn) (out : String) : String := Id.ru
         match r with
         | some b => return s!"{b} step={i}"
         | none => pure ()
+    if st.op == "phase" && which == .c09 then
+      -- C09 for a delegated phase: once the ObjectSet controller has SEEN the pause (it wrote a status for
+      -- the generation that carries lifecycleState Paused), no pass of the phase controller may write a
+      -- managed object of that ObjectSet any more — whichever phase the ObjectSet's own pass stops at.
+      match parseStep tok with
+      | none => return s!"bad unparsable-step {i} {tok.take 40}"
+      | some so =>
+        match sys.w.phases st.set with
+        | none => pure ()
+        | some po =>
+          match sys.sets po.ctrlName with
+          | none => pure ()
+          | some o =>
+            let seen := o.conds.any fun c => c.type == "Paused" && c.obsGen == o.gen
+            if o.uid == po.ctrlUID && o.lifecycle == .paused && !o.deleting && seen && !po.deleting && quiet st then
+              match so.events.head? with
+              | some e => return s!"bad write-by-delegated-phase-of-paused-objectset {e} (phase object {po.name} paused={po.paused}, ObjectSet {o.name} reported Paused for generation {o.gen}) step={i}"
+              | none => pure ()
     if st.op == "phase" && which == .c01 then     -- (S1B)
       match parseStep tok with
       | none => return s!"bad unparsable-step {i} {tok.take 40}"
